@@ -6,6 +6,12 @@ export GOFLAGS=-mod=mod GOPROXY=off GOTOOLCHAIN=auto
 unset GOSUMDB
 mkdir -p "$ROOT/bin" "$ROOT/evidence"
 cd "$ROOT/harness"
-cp /repo/go.sum go.sum
+[ -f go.sum ] || cp /repo/go.sum go.sum
 go build -trimpath -tags verif -o "$ROOT/bin/" ./cmd/...
+# overlay builds (scheduler / map-order seams), incl. the -race variant, to warm the build cache
+OVL="$ROOT/bin/ovl.setup"
+python3 "$ROOT/harness/ovl/gen.py" /repo "$OVL"
+go build -trimpath -overlay "$OVL/overlay.json" -tags verif,verifovl -o "$ROOT/bin/conc.ovl" ./cmd/conc
+go build -race -trimpath -overlay "$OVL/overlay.json" -tags verif,verifovl -o "$ROOT/bin/conc.ovl.race" ./cmd/conc
+rm -rf "$OVL" "$ROOT/bin/conc.ovl" "$ROOT/bin/conc.ovl.race"
 ls "$ROOT/bin"
